@@ -117,6 +117,8 @@ pub const ALL_FNS: &[&str] = &[
 #[allow(deprecated)]
 pub fn call(name: &str, a: &Args, i: &[u8]) -> Option<Out> {
     let len = a.len;
+    let sub = a.sub.clone();
+    let ct = a.ct;
     match name {
         // ---- records
         "parse_tls_record_header" => c!(i, parse_tls_record_header, pj::hdr),
@@ -153,6 +155,62 @@ pub fn call(name: &str, a: &Args, i: &[u8]) -> Option<Out> {
             };
             let (pos, v) = out?;
             Ok((&i[pos..], v))
+        }, |v: &Value| v.clone()),
+        "hist_parse_record" => c!(i, |i| {
+            // the record through a stateful parser with a history (sub): complete records of other types, a completed defragmentation,
+            // an abandoned one followed by reset()
+            let (_, r) = parse_tls_raw_record(i)?;
+            let n = r.data.len();
+            let mut p = TlsRecordsParser::default();
+            let raw = |ct: u8, data: &'static [u8]| TlsRawRecord { hdr: TlsRecordHeader { record_type: TlsRecordType(ct), version: TlsVersion(0x0303), len: data.len() as u16 }, data };
+            match sub.as_str() {
+                "ccs" => { let _ = p.parse_record(raw(20, &[1])).map(|_| ()); }
+                "alert" => { let _ = p.parse_record(raw(21, &[1, 0])).map(|_| ()); }
+                "hs" => { let _ = p.parse_record(raw(22, &[14, 0, 0, 0])).map(|_| ()); }
+                "app" => { let _ = p.parse_record(raw(23, &[1, 2, 3])).map(|_| ()); }
+                "ccs+app" => { let _ = p.parse_record(raw(20, &[1])).map(|_| ()); let _ = p.parse_record(raw(23, &[9; 40])).map(|_| ()); }
+                "defrag" => { let _ = p.parse_record(raw(22, &[20, 0, 0, 2, 1])).map(|_| ()); let _ = p.parse_record(raw(22, &[2])).map(|_| ()); }
+                "reset" => { let _ = p.parse_record(raw(22, &[11, 0, 1, 0, 5])).map(|_| ()); p.reset(); }
+                _ => {}
+            }
+            use tls_parser::nom::{error::make_error, Err as NErr};
+            let out = match p.parse_record(r) {
+                Ok((rem2, msgs)) => Ok((5 + n - rem2.len(), pj::msgs(&msgs))),
+                Err(NErr::Incomplete(nd)) => Err(NErr::Incomplete(nd)),
+                Err(NErr::Error(er)) => Err(NErr::Error(make_error(i, er.code))),
+                Err(NErr::Failure(er)) => Err(NErr::Failure(make_error(i, er.code))),
+            };
+            let (pos, v) = out?;
+            Ok((&i[pos.min(i.len())..], v))
+        }, |v: &Value| v.clone()),
+        "split_parse_record" => c!(i, |i| {
+            // the record's payload cut after len and len + ct bytes into successive records of the same type; the answer is the last call's
+            // (its slices live in the parser's buffer: only values are read from this projection)
+            let (_, r) = parse_tls_raw_record(i)?;
+            let n = r.data.len();
+            let c1 = len.min(n);
+            let c2 = (ct as usize).min(n - c1);
+            let mut pieces: Vec<&[u8]> = vec![&r.data[..c1], &r.data[c1..c1 + c2], &r.data[c1 + c2..]];
+            pieces.retain(|x| !x.is_empty());
+            if pieces.is_empty() { pieces.push(&r.data[..0]); }
+            let mut p = TlsRecordsParser::default();
+            use tls_parser::nom::{error::make_error, Err as NErr};
+            let last = pieces.len() - 1;
+            let mut out: Result<(usize, Value), NErr<tls_parser::nom::error::Error<&[u8]>>> = Err(NErr::Incomplete(tls_parser::nom::Needed::Unknown));
+            for (k, pc) in pieces.iter().enumerate() {
+                let rr = TlsRawRecord { hdr: TlsRecordHeader { record_type: r.hdr.record_type, version: r.hdr.version, len: pc.len() as u16 }, data: pc };
+                let res = p.parse_record(rr);
+                if k == last {
+                    out = match res {
+                        Ok((rem2, msgs)) => Ok((5 + n - rem2.len().min(n), pj::msgs(&msgs))),
+                        Err(NErr::Incomplete(nd)) => Err(NErr::Incomplete(nd)),
+                        Err(NErr::Error(er)) => Err(NErr::Error(make_error(i, er.code))),
+                        Err(NErr::Failure(er)) => Err(NErr::Failure(make_error(i, er.code))),
+                    };
+                }
+            }
+            let (pos, v) = out?;
+            Ok((&i[pos.min(i.len())..], v))
         }, |v: &Value| v.clone()),
         // ---- messages
         "parse_tls_message_changecipherspec" => c!(i, parse_tls_message_changecipherspec, pj::msg),
@@ -239,6 +297,15 @@ pub fn call(name: &str, a: &Args, i: &[u8]) -> Option<Out> {
                                  let (_, nx) = tls_parser::nom::number::streaming::be_u8(r)?;
                                  Ok((r, (x, nx))) }, ext),
                              |v: &((u8, u8), DigitallySigned)| json!({"content":{"first":(v.0).0,"next":(v.0).1},"sig":pj::signed(&v.1)})),
+                // a caller-supplied content parser that bounds itself to the message body (the first len bytes): its remainder lies inside the body,
+                // and so does the signature; the final remainder is reported as a position of the input
+                "bounded" => c!(i, move |i| {
+                                 let (rem, v) = parse_content_and_signature(i, move |j: &[u8]| {
+                                     let (_, body) = tls_parser::nom::bytes::streaming::take(len)(j)?;
+                                     parse_ecdh_params(body) }, ext)?;
+                                 let pos = (rem.as_ptr() as usize).wrapping_sub(i.as_ptr() as usize).min(i.len());
+                                 Ok((&i[pos..], v)) },
+                             |v: &(ServerECDHParams, DigitallySigned)| json!({"content":pj::ecdh(&v.0),"sig":pj::signed(&v.1)})),
                 _ => c!(i, move |i| parse_content_and_signature(i, parse_ec_parameters, ext),
                         |v: &(ECParameters, DigitallySigned)| json!({"content":pj::ecparams(&v.0),"sig":pj::signed(&v.1)})),
             }
